@@ -24,11 +24,11 @@ RomOf(k) ==
     [] k = "v21_dig" -> [type |-> 4, cb |-> 21, hmac |-> FALSE, tz |-> 556, man |-> 1]
     [] k = "v21_crc" -> [type |-> 4, cb |-> 21, hmac |-> FALSE, tz |-> 980, man |-> 2]
 
-AppLens == IF Full THEN {64, 68, 300, 4096} ELSE {64, 300}
+AppLens == IF Full THEN {64, 68, 300, 4096, 20004} ELSE {64, 300}
 KeyBytes == IF Full THEN {256, 384, 512} ELSE {256, 384}
 Depths == IF Full THEN 1..4 ELSE {1, 3}
 CertLen(kb) == CASE kb = 256 -> 800 [] kb = 384 -> 1060 [] OTHER -> 1320       \* padded DER length (abstract, multiple of 4)
-UdLens == IF Full THEN {0, 4, 96} ELSE {0, 4}
+UdLens == IF Full THEN {0, 4, 32, 96} ELSE {0, 4}
 
 Shapes ==
   [kind : {"crc_xip", "crc_ram"}, app : AppLens, tzType : {0, 1, 2}, ks : {FALSE}, depth : {0}, kb : {0},
@@ -43,6 +43,7 @@ Shapes ==
   { sh \in [kind : {"v21_dig", "v21_crc"}, app : (IF Full THEN AppLens ELSE {300}), tzType : {0, 1}, ks : {FALSE}, depth : {0}, kb : {0},
             nKeys : (IF Full THEN 1..4 ELSE {1, 3}), used : 0..3, curve : {32, 48}, isk : {0, 64, 96}, ud : UdLens, dig : BOOLEAN] :
       /\ sh.used < sh.nKeys /\ (Full \/ sh.used \in {0, sh.nKeys - 1}) /\ (sh.isk = 0 => sh.ud = 0) /\ sh.isk <= 2 * sh.curve
+
       /\ (sh.kind = "v21_crc" => ~sh.dig) }
 
 (* ---- the documented layout: regions [n, a, b) of the image of a shape *)
@@ -108,17 +109,16 @@ Build(sh) == LET rom == RomOf(sh.kind) IN
 
 DontCare == {"keystore"}
 
-VARIABLES shape, t, s
-vars == <<shape, t, s>>
+VARIABLES shape, t, s, img                                \* img = Build(shape), kept in the state so that it is computed once
+vars == <<shape, t, s, img>>
 rom == RomOf(shape.kind)
-img == Build(shape)
 TReg == img.reg[t]
 Hit(a, b) == t # 0 /\ TReg.a < b /\ a < TReg.b           \* the tampered region meets [a, b)
 Aux(hit) == IF hit THEN BOOLEAN ELSE {TRUE}                \* an auxiliary check may or may not notice
 W2(n) == <<n \div 65536, n % 65536>>
 
-Init == /\ shape \in Shapes /\ t \in 0..Len(Build(shape).reg) /\ s = S0
-Step(ok, nx) == s' = (IF ok THEN nx ELSE [s EXCEPT !.st = "Rejected"]) /\ UNCHANGED <<shape, t>>
+Init == /\ shape \in Shapes /\ img = Build(shape) /\ t \in 0..Len(img.reg) /\ s = S0
+Step(ok, nx) == s' = (IF ok THEN nx ELSE [s EXCEPT !.st = "Rejected"]) /\ UNCHANGED <<shape, t, img>>
 
 ReadIvt == s.st = "Ivt" /\
   LET e == [rd |-> TRUE, type |-> rom.type, totalLen |-> img.fileLen, fileLen |-> img.fileLen, tzType |-> shape.tzType,
@@ -174,7 +174,7 @@ CheckDigest == s.st = "Dig" /\
 Accept == s.st = "Done" /\ Step(AcceptOK(rom, s), AcceptNx(rom, s))
 Emit == /\ s.st \in {"Accepted", "Rejected"}
         /\ PrintT(ToJson([kind |-> shape.kind, cls |-> (IF t = 0 THEN "none" ELSE TReg.n), verdict |-> s.st, enc |-> rom.type = 3]))
-        /\ s' = [s EXCEPT !.st = "End"] /\ UNCHANGED <<shape, t>>
+        /\ s' = [s EXCEPT !.st = "End"] /\ UNCHANGED <<shape, t, img>>
 Stutter == s.st = "End" /\ UNCHANGED vars
 Next == ReadIvt \/ CheckCrc \/ CheckHmac \/ CertBlockV1 \/ CertV1 \/ RkhTable \/ VerifySigV1 \/ Decrypt \/ CertBlockV21 \/ RootKeyRecord
         \/ IskCert \/ CertBlockEnd \/ Manifest \/ ManifestCrc \/ VerifySigV21 \/ CheckDigest \/ Accept \/ Emit \/ Stutter
